@@ -369,17 +369,21 @@ func ParseIPv6(input []rune) (addr [8]uint16, ok bool) {
 
 // hex16 is v in lower-case hex without leading zeros.
 func hex16(v uint16) string {
+	d3 := byte((v >> 12) & 0x0F)
+	d2 := byte((v >> 8) & 0x0F)
+	d1 := byte((v >> 4) & 0x0F)
+	d0 := byte(v & 0x0F)
 	out := make([]byte, 0, 4)
-	started := false
-	shift := 12
-	for shift >= 0 {
-		d := byte((v >> uint(shift)) & 0x0F)
-		if d != 0 || started || shift == 0 {
-			out = append(out, hexLowerDigit(d))
-			started = true
-		}
-		shift = shift - 4
+	if d3 != 0 {
+		out = append(out, hexLowerDigit(d3))
 	}
+	if d3 != 0 || d2 != 0 {
+		out = append(out, hexLowerDigit(d2))
+	}
+	if d3 != 0 || d2 != 0 || d1 != 0 {
+		out = append(out, hexLowerDigit(d1))
+	}
+	out = append(out, hexLowerDigit(d0))
 	return string(out)
 }
 
